@@ -55,7 +55,7 @@ type Hooks struct {
 var H *Hooks
 
 func point(op, path string) error {
-	vsched.Point("os." + op)
+	vsched.PointObj("os."+op, path)
 	if H != nil && H.Fail != nil {
 		return H.Fail(op, path)
 	}
